@@ -74,3 +74,15 @@ impl<T: Send + Sync + 'static> Default for CobwebCommandQueue<T>
 }
 
 //-------------------------------------------------------------------------------------------------------------------
+
+#[cfg(feature = "verif")]
+impl<T: Send + Sync + 'static> CobwebCommandQueue<T>
+{
+    /// Number of queued commands.
+    pub(crate) fn verif_len(&self) -> usize
+    {
+        self.commands.len()
+    }
+}
+
+//-------------------------------------------------------------------------------------------------------------------
